@@ -282,8 +282,9 @@ class World:
                 self.v.append(("row_without_directory", "%s: version %s@%d is recorded but %s does not exist" % (what, task, ts, os.path.relpath(d, self.root))))
                 continue
             names = set(os.listdir(d))
-            if step["op"] == "run" and key not in self.known and any(
+            if key in getattr(self, "relaxed", ()) or step["op"] == "run" and key not in self.known and any(
                     o.get("rmout") and self.ids[int(i)] == task for i, o in step.get("outcomes", {}).items()):
+                self.relaxed = getattr(self, "relaxed", set()) | {key}     # (also when later steps look at this version again)
                 # the command removed its own output directory while Conductor's tee threads were creating the log files in
                 # it: what is left of the directory is the command's doing; only its existence is demanded of the version
                 self.labels.add("version_of_a_command_that_removed_its_output")
